@@ -99,6 +99,34 @@ class Sym:
         # drop stale sub-places
         for k in [k for k in self.mem if len(k) > len(key) and k[:len(key)] == key]:
             del self.mem[k]
+        # writing into a known aggregate held by an ancestor further up (`(*self).turns.last = ..` with the whole `*self` known):
+        # rebuild that ancestor
+        if len(key) > 2:
+            for n in range(len(key) - 2, 0, -1):
+                anc = key[:n]
+                if anc in self.mem and self.mem[anc][0] in ("agg", "tuple"):
+                    path = key[n:]
+                    if all(isinstance(e, str) and e.startswith(".") for e in path):
+                        def set_in(v, path, val):
+                            name = path[0][1:]
+                            if v[0] == "agg" and name in v[3]:
+                                sub = val if len(path) == 1 else set_in(v[3][name], path[1:], val)
+                                if sub is None:
+                                    return None
+                                d = dict(v[3]); d[name] = sub
+                                return ("agg", v[1], v[2], d)
+                            if v[0] == "tuple" and name.isdigit() and int(name) < len(v[1]):
+                                sub = val if len(path) == 1 else set_in(v[1][int(name)], path[1:], val)
+                                if sub is None:
+                                    return None
+                                xs = list(v[1]); xs[int(name)] = sub
+                                return ("tuple", xs)
+                            return None
+                        nv = set_in(self.mem[anc], path, val)
+                        if nv is not None:
+                            self.mem[anc] = nv
+                            return
+                    break
         # writing into a known aggregate held by the parent: rebuild the parent
         if len(key) > 1:
             parent = key[:-1]
